@@ -123,6 +123,9 @@ func c10Gen(t *verifrt.Tape) *c10Scenario {
 	for i := 0; i < nd; i++ {
 		sc.Drain = append(sc.Drain, t.Range(1, 40))
 	}
+	if t.Draw(4) == 0 {
+		sc.Drain = []int{-1} // drained with io.Copy (WriterTo if the reader has one)
+	}
 	sc.ExplicitP = t.Draw(8) != 0
 	if t.Draw(4) == 0 {
 		sc.ReqCfgLimit = sc.Req.Limit + 1 + t.Draw(40)
@@ -296,6 +299,43 @@ func c10Run(w *verifrt.World, tier Tier) *RunResult {
 		tot += len(o.Data)
 	}
 	res.Nontrivial = tot >= sc.Mem-1 || tot >= sc.Req.Limit-1
+
+	// an interleaved pair (an eighth of the runs): this scenario and a second one,
+	// each on its own WAF, as two tasks under the seeded scheduler with a yield
+	// after every read of a simulated stream - what the body entry points share
+	// beyond one transaction (pooled copy buffers) must keep their bytes apart;
+	// the same call-by-call model decides
+	if len(res.Viol) == 0 && w.Work.Draw(8) == 0 {
+		sc2 := c10Gen(w.Work)
+		sc2.Predecessor, sc2.PredFault = false, ""
+		scs := []*c10Scenario{sc, sc2}
+		mems := []int{sc.Mem, sc2.Mem}
+		var fns []func()
+		for i := range scs {
+			i := i
+			fns = append(fns, func() { c10Exec(scs[i], mems[i], res, fmt.Sprintf("interleaved%d", i)) })
+		}
+		w.PoolPolicy = verifrt.PoolLIFO
+		sch := verifrt.NewSched(w.Sch, []int{verifrt.PolicyRandom, verifrt.PolicyRandom, verifrt.PolicyPCT}[w.Sch.Draw(3)])
+		sch.RunLen = []int{1, 1, 2, 3, 6}[w.Sch.Draw(5)]
+		tasks := sch.Run(fns)
+		res.Interleave = sch.TraceHash
+		res.count("interleaved_pairs", 1)
+		res.count("context_switches", int64(sch.Switches))
+		if sch.Deadlock || sch.Overrun {
+			res.Tainted = true
+			res.fail("C10", "deadlock", "interleaved", "two interleaved transactions did not finish (deadlock=%v, step budget exceeded=%v)", sch.Deadlock, sch.Overrun)
+		}
+		for _, tk := range tasks {
+			if tk.Panic != nil {
+				res.Tainted = true
+				res.fail("C10", "panic", "interleaved/"+panicSite(tk.Stack), "task %d panicked: %v\n%s", tk.ID, tk.Panic, clip(tk.Stack, 1500))
+			}
+		}
+		if !res.Tainted {
+			c10LeakCheck(res, "interleaved")
+		}
+	}
 	return res
 }
 
@@ -688,11 +728,17 @@ func c10Exec(sc *c10Scenario, mem int, res *RunResult, variant string) *c10Outco
 		out.RespBody = got
 	}
 	closeTx()
-	c10LeakCheck(res, variant)
+	if !strings.HasPrefix(variant, "interleaved") {
+		// interleaved tasks share the simulated disk: checked once after both
+		c10LeakCheck(res, variant)
+	}
 	return out
 }
 
 func c10LeakCheck(res *RunResult, variant string) {
+	if strings.HasPrefix(variant, "interleaved") && variant != "interleaved" {
+		return // interleaved tasks share the simulated disk: checked once after both
+	}
 	for _, f := range simos.Disk().Files() {
 		res.fail("C10", "temp-file-left", variant, "file %s still exists after Close", f)
 	}
@@ -715,6 +761,6 @@ func init() {
 		Real:      []string{"coraza transaction API, BodyBuffer, body processors (urlencoded, raw), rule engine, collections"},
 		Stub:      []string{"file system (simos in-memory disk)", "body streams (scripted readers)", "clock", "random id source"},
 		Unchecked: []string{"stored length / n of the rejecting call", "anything after an injected stream error except panic-freedom and cleanup", "ctl-changed response limits"},
-		MustHit:   []string{"predecessor_runs", "predecessor_close_faults", "early_readers", "ctl_lowered_limit", "spill_happened", "req_limit_hit", "resp_limit_hit", "reject_fired", "fault_reader_error_fired"},
+		MustHit:   []string{"interleaved_pairs", "predecessor_runs", "predecessor_close_faults", "early_readers", "ctl_lowered_limit", "spill_happened", "req_limit_hit", "resp_limit_hit", "reject_fired", "fault_reader_error_fired"},
 	})
 }
